@@ -183,3 +183,35 @@ Example C09_nonvacuous :
      int_imports ex_pe {| r_off := 360; r_len := 8 |} = [Ok (ByOrdinal 7); Ok (ByName 5 {| r_off := 402; r_len := 2 |})]) /\
   iat ex_pe = Ok {| r_off := 384; r_len := 8 |}.
 Proof. exact ImportsProofs.nonvacuous_example. Qed.
+
+(* ---- leaf functions regenerated from the source on every run (tools/gen_leaf.py -> gen/Leaf.v): agreement with the hand-written model ---- *)
+(* src/pe64/imports.rs import_from_va: the ordinal-flag test, the casts and the checked name rva, compiled for pe32 and
+   for pe64 and regenerated from the source on every run - the model's import_from_va is the same function written with
+   them; IMAGE_IMPORT_DESCRIPTOR::is_null is the model's terminator test *)
+From PV.Model Require Headers Imports.
+From PV.gen Require Leaf Layout.
+From PV.Proofs Require LeafImports.
+Theorem C09_leaf_import_from_va_64 : forall p va, Headers.f_64 (Imports.p_f p) = true ->
+  Imports.import_from_va p va =
+    LeafImports.import_from_va_leaf Leaf.L_pe64_imports_import_from_va__by_name Leaf.L_pe64_imports_import_from_va__rva
+      Leaf.L_pe64_imports_import_from_va__name_rva Leaf.L_pe64_imports_import_from_va__ordinal p va.
+Proof. exact LeafImports.import_from_va_agrees_64. Qed.
+Print Assumptions C09_leaf_import_from_va_64.
+Theorem C09_leaf_import_from_va_32 : forall p va, Headers.f_64 (Imports.p_f p) = false ->
+  Imports.import_from_va p va =
+    LeafImports.import_from_va_leaf Leaf.L_pe32_imports_import_from_va__by_name Leaf.L_pe32_imports_import_from_va__rva
+      Leaf.L_pe32_imports_import_from_va__name_rva Leaf.L_pe32_imports_import_from_va__ordinal p va.
+Proof. exact LeafImports.import_from_va_agrees_32. Qed.
+Print Assumptions C09_leaf_import_from_va_32.
+Theorem C09_leaf_import_from_va_no_panic : forall va,
+  Leaf.L_pe64_imports_import_from_va__by_name_ok va = true /\ Leaf.L_pe64_imports_import_from_va__rva_ok va = true /\
+  Leaf.L_pe64_imports_import_from_va__name_rva_ok va = true /\ Leaf.L_pe64_imports_import_from_va__ordinal_ok va = true /\
+  Leaf.L_pe32_imports_import_from_va__by_name_ok va = true /\ Leaf.L_pe32_imports_import_from_va__rva_ok va = true /\
+  Leaf.L_pe32_imports_import_from_va__name_rva_ok va = true /\ Leaf.L_pe32_imports_import_from_va__ordinal_ok va = true.
+Proof. exact LeafImports.import_from_va_leaves_ok. Qed.
+Print Assumptions C09_leaf_import_from_va_no_panic.
+Theorem C09_leaf_desc_is_null : forall x,
+  Leaf.L_image_IMAGE_IMPORT_DESCRIPTOR_is_null_ok (x / 2 ^ (8 * Layout.IMAGE_IMPORT_DESCRIPTOR_FirstThunk_off)) = true /\
+  Leaf.L_image_IMAGE_IMPORT_DESCRIPTOR_is_null (x / 2 ^ (8 * Layout.IMAGE_IMPORT_DESCRIPTOR_FirstThunk_off)) = Imports.desc_is_null x.
+Proof. exact LeafImports.desc_is_null_agrees. Qed.
+Print Assumptions C09_leaf_desc_is_null.
